@@ -903,7 +903,8 @@ def disjunctionOnTarget (ss : Schemas) (o : Opt) (idx : Nat) (target : Argument)
 /-- `DisjunctionAsOptionsAction` (since /repo 423e7f3: an `argumentIndex` outside the option's
     arguments returns the option unchanged) -/
 def disjunctionAsOptionsAction (argumentIndex : Int) (ss : Schemas) (o : Opt) : Outcome ActOut :=
-  if argumentIndex < 0 then unchanged o
+  if o.args.isEmpty then unchanged o          -- (subsumed by the range test; kept: same shape as before the fix)
+  else if argumentIndex < 0 then unchanged o
   else
     match o.args[argumentIndex.toNat]? with
     | none => unchanged o
